@@ -16,12 +16,17 @@ theorem memberSuccs_sound (s t : State) (i : Nat) (h : t ∈ memberSuccs cfg s i
   · rename_i m hm
     simp at h; subst h; exact IStep.flush s i m hm
   · rename_i hm
-    split at h
-    · rename_i cs hc
-      simp at h; subst h; exact IStep.recvExit s i cs hm hc
-    · rename_i q cs hc
-      simp at h; subst h; exact IStep.recvQuery s i q cs hm hc
-    · simp at h
+    rcases List.mem_append.mp h with h | h
+    · split at h
+      · rename_i cs hc
+        simp at h; subst h; exact IStep.recvExit s i cs hm hc
+      · rename_i q cs hc
+        simp at h; subst h; exact IStep.recvQuery s i q cs hm hc
+      · simp at h
+    · split at h
+      · rename_i hk
+        simp at h; subst h; exact IStep.serveCrash s i hk hm
+      · simp at h
   · rename_i hm
     split at h
     · rename_i hk
@@ -67,7 +72,12 @@ theorem parentSuccs_sound (s t : State) (h : t ∈ parentSuccs cfg s) : IStep cf
     split at h
     · rename_i j q' r hr
       simp at h; subst h; exact IStep.recvReply s v w q j q' r hp hr
-    · simp at h
+    · rename_i hr
+      split at h
+      · rename_i hd
+        simp at h; subst h
+        exact IStep.recvEOF s v w q hp hr (by simpa using hd)
+      · simp at h
   · simp at h
 
 theorem isuccs_sound (s t : State) (h : t ∈ isuccs cfg s) : IStep cfg s t := by
@@ -88,6 +98,11 @@ theorem isuccs_complete (s t : State) (h : IStep cfg s t) : t ∈ isuccs cfg s :
   | flush i m hm => exact mem_isuccs_member cfg s _ i _ hm (by simp [memberSuccs, hm])
   | recvExit i cs hm hc => exact mem_isuccs_member cfg s _ i _ hm (by simp [memberSuccs, hm, hc])
   | recvQuery i q cs hm hc => exact mem_isuccs_member cfg s _ i _ hm (by simp [memberSuccs, hm, hc])
+  | serveCrash i hk hm => exact mem_isuccs_member cfg s _ i _ hm (by simp [memberSuccs, hm, hk])
+  | recvEOF v w q hp hr hd =>
+    refine List.mem_append_left _ ?_
+    simp [parentSuccs, hp, hr]
+    exact hd
   | lateRecv i c cs hk hm hc => exact mem_isuccs_member cfg s _ i _ hm (by simp [memberSuccs, hm, hc, hk])
   | getAns i v q hp hq => exact List.mem_append_left _ (by simp [parentSuccs, hp, hq])
   | getExnSkip i e q hp he hq => exact List.mem_append_left _ (by simp [parentSuccs, hp, hq, he])
